@@ -40,6 +40,7 @@ def _excepted(f, name):
 
 def run_U(chk, prefixes, rule1="U1", rule2="U2", floor1=40, floor2=10):
     prog = chk.prog
+    run_U4(chk, prefixes, floor=max(1, floor1))
     chk.rule(rule1, "every parameter is read by the function that declares it (nothing the caller supplies is silently ignored)", floor=floor1)
     chk.rule(rule2, "every name bound by unpacking a tuple is read", floor=floor2)
     for f in prog.all_funcs():
@@ -88,6 +89,99 @@ def run_U(chk, prefixes, rule1="U1", rule2="U2", floor1=40, floor2=10):
                         continue
                     chk.bad(rule2, (f, tg), f"{f.short}: {nm} of `{A.short(tg, 40)}`",
                             f"{f.short}(): `{nm}`, unpacked in `{A.short(tg, 50)}`, is never read: that component of the caller's data is ignored")
+
+
+# ------------------------------------------------------------------ U4 arguments out of order
+# (caller module suffix, caller short name, callee name) -> reason
+U4_EXCEPTIONS = {
+    ("tensor/_contractions.py", "Tensor.tensordot", "_tensordot_diag"):
+        "deliberate role swap: _tensordot_diag(diagonal operand, other operand, axes of the other) is called as (b, a, in_a) when b is the diagonal one",
+}
+
+_U4_FIXTURE = """
+def callee(bra, ket, n):
+    return bra, ket, n
+def caller(bra, ket):
+    return callee(ket, bra, 0)
+"""
+
+
+def _swapped_pairs(call, names):
+    """positional/keyword arguments that are plain names equal to *each other's* parameter names"""
+    if any(isinstance(x, ast.Starred) for x in call.args):
+        return []
+    given = {}
+    for i, x in enumerate(call.args[:len(names)]):
+        given[names[i]] = x.id if isinstance(x, ast.Name) else None
+    for k in call.keywords:
+        if k.arg in names:
+            given[k.arg] = k.value.id if isinstance(k.value, ast.Name) else None
+    out = []
+    ks = sorted(given)
+    for i, p in enumerate(ks):
+        for q in ks[i + 1:]:
+            if given[p] == q and given[q] == p:
+                out.append((p, q))
+    return out
+
+
+def run_U4(chk, prefixes, floor=20):
+    """A call that passes the caller's `x` for the callee's parameter `y` and its `y` for the callee's `x` has, with overwhelming likelihood,
+    its arguments in the wrong order (bra/ket, a/b, left/right exchanged).  Callees: plain names resolved through the module's imports,
+    methods called on self/cls, and attribute calls whose method name has one positional signature in the whole program."""
+    prog = chk.prog
+    chk.rule("U4", "no call passes two of the caller's names for each other's parameter (arguments out of order)", floor=floor)
+    fx = ast.parse(_U4_FIXTURE)
+    fxc = [c for c in ast.walk(fx) if isinstance(c, ast.Call)][0]
+    if _swapped_pairs(fxc, ["bra", "ket", "n"]) != [("bra", "ket")]:
+        raise AnalysisError("U4: the built-in positive fixture is not recognised (rule broken)")
+    bysig = {}
+    for g in prog.all_funcs():
+        a = g.node.args
+        names = [x.arg for x in a.posonlyargs + a.args]
+        if g.cls is not None and names and not any("staticmethod" in d for d in g.decorators):
+            names = names[1:]
+        bysig.setdefault(g.name, set()).add(tuple(names))
+    for f in prog.all_funcs():
+        if not f.module.name.startswith(tuple(prefixes)) or "torch" in f.module.name:
+            continue
+        a0 = f.node.args
+        recv = (a0.posonlyargs + a0.args)[0].arg if (a0.posonlyargs + a0.args) else None
+        for c in ast.walk(f.node):
+            if not isinstance(c, ast.Call):
+                continue
+            names = None
+            cname = None
+            if isinstance(c.func, ast.Name):
+                t = prog.resolve(f.module, c.func.id)
+                if hasattr(t, "node") and hasattr(t, "params"):
+                    a = t.node.args
+                    names = [x.arg for x in a.posonlyargs + a.args]
+                    cname = t.name
+            elif isinstance(c.func, ast.Attribute):
+                sigs = bysig.get(c.func.attr)
+                own = f.cls.methods.get(c.func.attr) if (f.cls is not None and isinstance(c.func.value, ast.Name) and c.func.value.id == recv) else None
+                if own is not None:
+                    a = own.node.args
+                    names = [x.arg for x in a.posonlyargs + a.args][1:]
+                    cname = own.name
+                elif sigs and len(sigs) == 1:
+                    names = list(next(iter(sigs)))
+                    cname = c.func.attr
+            if not names:
+                continue
+            sw = _swapped_pairs(c, names)
+            if not sw:
+                chk.ok("U4", (f, c), f"{f.short}: {A.short(c, 50)}", sample=False)
+                continue
+            why = next((w for (suf, fn, cal), w in U4_EXCEPTIONS.items() if f.module.relpath.endswith(suf) and f.short == fn and cal == cname), None)
+            if why:
+                chk.note(f"U4 named exception {f.short} -> {cname}: {why}")
+                continue
+            p, q = sw[0]
+            chk.bad("U4", (f, c), f"{f.short}: {A.short(c, 60)}",
+                    f"{f.short}(): `{A.short(c, 70)}` passes the caller's `{q}` for {cname}()'s parameter `{p}` and its `{p}` for `{q}`: the two "
+                    f"arguments are exchanged (for a sesquilinear / non-commutative callee the result is the conjugate / transposed one)")
 
 
 # ------------------------------------------------------------------ U3 local memo keys
